@@ -1,6 +1,7 @@
 SPECIFICATION TraceSpec
-CONSTANTS Variant = "ok"
- ShareMode = "ascoded"
+CONSTANTS
+ Variant = "coded"
+ StraddleOK = FALSE
 CONSTRAINT Mark
 POSTCONDITION Report
 CHECK_DEADLOCK FALSE
